@@ -75,6 +75,15 @@ pub enum StOp {
     Tick { dt: u8 },
 }
 
+/// offsets: two sentinels stand for values a u32 cannot hold
+pub fn off(o: u32) -> usize {
+    match o {
+        u32::MAX => usize::MAX,
+        x if x == u32::MAX - 1 => (i64::MAX as usize) + 1,
+        x => x as usize,
+    }
+}
+
 pub fn gid(i: u8) -> GroupId {
     GroupId::from_slice(&[0xA0 + i; 16])
 }
@@ -221,7 +230,16 @@ fn sorted(mut v: Vec<Value>) -> Vec<Value> {
 }
 
 /// Execute `op` on a real backend and return its canonical result.
+/// `apply_inner` behind catch_unwind: a panicking backend answers "PANIC: ..." (never equal to a
+/// model answer, so it is reported as a difference) instead of taking the run down.
 pub fn apply<S: MdkStorageProvider>(s: &S, op: &StOp, now: u64) -> Value {
+    match std::panic::catch_unwind(std::panic::AssertUnwindSafe(|| apply_inner(s, op, now))) {
+        Ok(v) => v,
+        Err(p) => json!(format!("PANIC: {}", crate::seam::panic_msg(&p))),
+    }
+}
+
+fn apply_inner<S: MdkStorageProvider>(s: &S, op: &StOp, now: u64) -> Value {
     match op {
         StOp::SaveGroup { g, nostr, name, epoch, state, admins, last, su } => res(s.save_group(mk_group(*g, *nostr, *name, *epoch, *state, *admins, *last, *su, now))),
         StOp::FindGroup { g } => res(s.find_group_by_mls_group_id(&gid(*g))),
@@ -236,7 +254,7 @@ pub fn apply<S: MdkStorageProvider>(s: &S, op: &StOp, now: u64) -> Value {
         StOp::SaveMessage { g, id, ca, pa, state, epoch, content, wrapper, tag } => res(s.save_message(mk_message(*g, *id, *ca, *pa, *state, *epoch, *content, *wrapper, *tag))),
         StOp::FindMessage { g, id } => res(s.find_message_by_event_id(&gid(*g), &event_id(*id))),
         StOp::Messages { g, limit, offset, sort } => {
-            let p = Pagination { limit: limit.map(|l| l as usize), offset: offset.map(|o| o as usize), sort_order: sort.map(|b| if b { MessageSortOrder::ProcessedAtFirst } else { MessageSortOrder::CreatedAtFirst }) };
+            let p = Pagination { limit: limit.map(|l| l as usize), offset: offset.map(off), sort_order: sort.map(|b| if b { MessageSortOrder::ProcessedAtFirst } else { MessageSortOrder::CreatedAtFirst }) };
             res(s.messages(&gid(*g), Some(p)))
         }
         StOp::LastMessage { g, processed_first } => res(s.last_message(&gid(*g), if *processed_first { MessageSortOrder::ProcessedAtFirst } else { MessageSortOrder::CreatedAtFirst })),
@@ -259,7 +277,7 @@ pub fn apply<S: MdkStorageProvider>(s: &S, op: &StOp, now: u64) -> Value {
         StOp::EpochByTag { g, tag } => res(s.find_message_epoch_by_tag_content(&gid(*g), &format!("tagval{tag}"))),
         StOp::SaveWelcome { id, g, nostr, state, wrapper } => res(s.save_welcome(mk_welcome(*id, *g, *nostr, *state, *wrapper))),
         StOp::FindWelcome { id } => res(s.find_welcome_by_event_id(&event_id(*id))),
-        StOp::PendingWelcomes { limit, offset } => res(s.pending_welcomes(Some(WPagination { limit: limit.map(|l| l as usize), offset: offset.map(|o| o as usize) }))),
+        StOp::PendingWelcomes { limit, offset } => res(s.pending_welcomes(Some(WPagination { limit: limit.map(|l| l as usize), offset: offset.map(off) }))),
         StOp::SaveProcessedWelcome { w, welcome, state } => res(s.save_processed_welcome(ProcessedWelcome {
             wrapper_event_id: wrapper_id(*w),
             welcome_event_id: welcome.map(event_id),
@@ -493,7 +511,7 @@ impl Model {
                     return Some(err());
                 }
                 let v = self.sorted_messages(*g, sort.unwrap_or(false));
-                let off = offset.map(|o| o as usize).unwrap_or(0);
+                let off = offset.map(off).unwrap_or(0);
                 ok(v.into_iter().skip(off).take(lim).collect::<Vec<_>>())
             }
             StOp::LastMessage { g, processed_first } => {
@@ -573,7 +591,7 @@ impl Model {
                 }
                 let mut v: Vec<Welcome> = self.welcomes.values().filter(|w| w.state == WelcomeState::Pending).cloned().collect();
                 v.sort_by(|a, b| b.id.cmp(&a.id));
-                ok(v.into_iter().skip(offset.map(|o| o as usize).unwrap_or(0)).take(lim).collect::<Vec<_>>())
+                ok(v.into_iter().skip(offset.map(off).unwrap_or(0)).take(lim).collect::<Vec<_>>())
             }
             StOp::SaveProcessedWelcome { w, welcome, state } => {
                 self.processed_welcomes.insert(
@@ -650,9 +668,11 @@ pub fn gen_ops(r: &mut Rng, n: usize, with_mls: bool, snapshot_heavy: bool) -> V
             4 => None,
             _ => Some(r.range(1, 5) as u32),
         };
-        let offset = match r.below(6) {
+        let offset = match r.below(8) {
             0 => None,
             1 => Some(100),
+            6 => Some(u32::MAX),
+            7 => Some(u32::MAX - 1),
             _ => Some(r.below(6) as u32),
         };
         let pick = r.below(if snapshot_heavy { 46 } else { 40 });
